@@ -82,10 +82,10 @@ PROPOSED_FINDINGS = [
                    "(r.get('kind')=='parse' and len(r.get('kw_in_ctx',[]))>0)",
      "witness": {"design": "behavioural block with state variable self.wait; top class named `table`; clock driver named `always`", "emitted": "integer wait; / module table ( / input always"},
      "what": "clock-driver names, class names used as module names, parameter names and transpiled Python variable names are copied into the text without the reserved-word check applied to ports"},
-    {"id": "C03-transpiler-attr-name", "property": "C03", "status": "known", "anchor": "py4hw/transpilation/python2verilog_transpilation.py:584",
-     "class_expr": "r.get('kind')=='wf' and r.get('err')=='undeclared' and r.get('why') in ('attr-port-mismatch','missing-attribute')",
-     "witness": {"design": "SelectType (test/unit/Test_RtlGeneration.py): self.imm_type = addOut('imm_typ'); SubBorrowIn.propagate reads self.ci (port attribute is self.bi)", "emitted": "imm_type<=0; / r<=a-b-ci;"},
-     "what": "the transpiler names a port by the Python attribute, the header by the port name: when they differ (SelectType imm_type/imm_typ) or the attribute does not exist (SubBorrowIn.ci) the body uses an undeclared identifier"},
+    {"id": "C03-transpiler-attr-name", "property": "C03", "status": "known", "anchor": "py4hw/logic/arithmetic.py:699",
+     "class_expr": "r.get('kind')=='wf' and r.get('err')=='undeclared' and r.get('why')=='missing-attribute'",
+     "witness": {"design": "SubBorrowIn(a, b, r, bi): propagate reads self.ci, the port attribute is self.bi", "emitted": "r=a-b-ci;  (ci undeclared)"},
+     "what": "SubBorrowIn.propagate reads self.ci, an attribute the object does not have (the borrow port is self.bi): the transpiled body uses the undeclared identifier ci (the attribute-name/port-name half of this finding is fixed in /repo 53243dd)"},
     {"id": "C03-transpiler-var-port", "property": "C03", "status": "known", "anchor": "py4hw/transpilation/python2verilog_transpilation.py:686",
      "class_expr": "r.get('kind')=='wf' and r.get('err')=='dupDecl' and r['source_kinds']==['port','variable']",
      "witness": {"design": "self.out = addOut('cnt', q); self.cnt = 0", "emitted": "output reg [7:0] cnt … integer cnt;"},
@@ -412,36 +412,36 @@ class EmitCov:
             res.hist('emit_model_hier', 'not-covered: export ' + type(e).__name__)
 
     def run(self):
+        """one driver session for the flat and the hierarchical requests"""
         res = self.res
-        if self.flat:
-            try:
-                out = run_driver('Drv/C03Emit.lean', self.flat)
-                for (ctx, stream), o in zip(self.fmeta, out[2::3]):
-                    if o == 'proved':
-                        ctx['proved'] = True
-                        self.proved += 1
+        if not (self.flat or self.hs):
+            return
+        try:
+            out = run_driver('Drv/C03Emit.lean', self.flat + self.hs)
+        except ToolFailure as e:
+            res.broken.append(('correspondence', 'emit-model-driver', str(e)[:300]))
+            out = None
+        if out is not None:
+            fo, ho = out[:len(self.flat)], out[len(self.flat):]
+            for (ctx, stream), o in zip(self.fmeta, fo[2::3]):
+                if o == 'proved':
+                    ctx['proved'] = True
+                    self.proved += 1
+                    self.proved_any += 1
+                    res.hist('emit_wf_flat', 'PROVED: text == FlatSrc.emit, FlatSrc.check, namesOKb')
+                    res.hist('emit_wf_flat_by_stream', stream)
+                else:
+                    res.hist('emit_wf_flat', 'not-covered: ' + o[:70])
+            for (ctx, stream), o in zip(self.hsmeta, ho[2::3]):
+                if o == 'proved':
+                    self.hs_ok += 1
+                    if not ctx.get('proved'):
                         self.proved_any += 1
-                        res.hist('emit_wf_flat', 'PROVED: text == FlatSrc.emit, FlatSrc.check, namesOKb')
-                        res.hist('emit_wf_flat_by_stream', stream)
-                    else:
-                        res.hist('emit_wf_flat', 'not-covered: ' + o[:70])
-            except ToolFailure as e:
-                res.broken.append(('correspondence', 'emit-flat-driver', str(e)[:300]))
-        if self.hs:
-            try:
-                out = run_driver('Drv/C03Emit.lean', self.hs)
-                for (ctx, stream), o in zip(self.hsmeta, out[2::3]):
-                    if o == 'proved':
-                        self.hs_ok += 1
-                        if not ctx.get('proved'):
-                            self.proved_any += 1
-                        ctx['proved'] = True
-                        res.hist('emit_wf_hier', 'PROVED: text == HSrc.emit and HSrc.okb')
-                        res.hist('emit_wf_hier_by_stream', stream)
-                    else:
-                        res.hist('emit_wf_hier', 'not-covered: ' + re.sub(r'_[0-9a-f]{9,}', '_<id>', o)[:70])
-            except ToolFailure as e:
-                res.broken.append(('correspondence', 'emit-hier-driver', str(e)[:300]))
+                    ctx['proved'] = True
+                    res.hist('emit_wf_hier', 'PROVED: text == HSrc.emit and HSrc.okb')
+                    res.hist('emit_wf_hier_by_stream', stream)
+                else:
+                    res.hist('emit_wf_hier', 'not-covered: ' + re.sub(r'_[0-9a-f]{9,}', '_<id>', o)[:70])
         self.flat, self.fmeta, self.hier, self.hmeta, self.hs, self.hsmeta = [], [], [], [], [], []
 
     def summary(self):
@@ -631,10 +631,11 @@ class Pipeline:
                 from py4hw.base import Wire
                 n = f[1]
                 attrs, plain = names_in_methods(obj)
-                if not hasattr(obj, n) and n in attrs and n not in plain:
-                    # used as self.<n> although the object has no such attribute (SubBorrowIn.ci); a method-local temporary or
-                    # an instance variable that the transpiler failed to declare is NOT this finding
-                    r['why'] = 'missing-attribute'
+                if not hasattr(obj, n):
+                    if n in attrs and n not in plain:
+                        # used as self.<n> although the object has no such attribute (SubBorrowIn.ci); a method-local temporary or
+                        # an instance variable that the transpiler failed to declare is NOT this finding
+                        r['why'] = 'missing-attribute'
                 else:
                     v = getattr(obj, n)
                     pn = [p.name for p in list(obj.inPorts) + list(obj.outPorts) + list(obj.inOutPorts) if p.wire is v]
